@@ -4,7 +4,7 @@ import json
 from . import dl, lib, prog
 
 PRELUDE = ("From Coq Require Import List ZArith Bool.\n"
-           "From AV Require Import Engine.Core Engine.Sem Engine.Eval Engine.Vocab Engine.Validate.\n"
+           "From AV Require Import Engine.Core Engine.Sem Engine.Eval Engine.Vocab Engine.Validate Engine.Strat.\n"
            "Import ListNotations.\nOpen Scope Z_scope.\n")
 FUEL = 200
 
@@ -26,7 +26,57 @@ def group_facts(facts, rels):
     return out
 
 
-def model_exprs(p, dump, inputs):
+def rule_rels(r):
+    heads = [h[0] for h in r["heads"]]
+    body = []
+    for it in r["body"]:
+        if it[0] == "clause":
+            body.append(it[1])
+        elif it[0] == "agg":
+            body.append(it[4])
+        elif it[0] == "neg":
+            body.append(it[1])
+        elif it[0] == "disj":
+            for alt in it[1]:
+                body += rule_rels(dict(heads=[], body=alt))[1]
+    return heads, body
+
+
+def stratify(rules):
+    """SCCs of the rule dependency graph in dependency order (Tarjan); returns list of lists of rule indices"""
+    n = len(rules)
+    rr = [rule_rels(r) for r in rules]
+    succ = [[j for j in range(n) if set(rr[i][0]) & set(rr[j][1])] for i in range(n)]
+    index, low, on, stack, out, counter = {}, {}, set(), [], [], [0]
+
+    def visit(v):
+        index[v] = low[v] = counter[0]
+        counter[0] += 1
+        stack.append(v)
+        on.add(v)
+        for w in succ[v]:
+            if w not in index:
+                visit(w)
+                low[v] = min(low[v], low[w])
+            elif w in on:
+                low[v] = min(low[v], index[w])
+        if low[v] == index[v]:
+            comp = []
+            while True:
+                w = stack.pop()
+                on.discard(w)
+                comp.append(w)
+                if w == v:
+                    break
+            out.append(sorted(comp))
+    for v in range(n):
+        if v not in index:
+            visit(v)
+    out.reverse()      # Tarjan emits sinks first; producers must come first
+    return out
+
+
+def model_exprs(p, dump, inputs, spec="naive"):
     """Coq expressions: per input (model rows, spec facts), plus once the validator verdict"""
     R = dl.Names()
     for name, _, _ in p["rels"]:
@@ -36,10 +86,16 @@ def model_exprs(p, dump, inputs):
     hir_prog = dl.coq_list(dl.coq_rule(dict(heads=r["heads"], body=r["body"]), R) for r in hir_rules)
     arities = dl.coq_list("(%s, %s)" % (dl.cnat(R(n)), dl.cnat(a)) for n, a, _ in p["rels"])
     exprs = ["validate %s %s %s" % (arities, hir_prog, plan)]
+    if spec == "strat":
+        strata = dl.coq_list(dl.coq_list(dl.coq_rule(p["rules"][j], R) for j in comp) for comp in stratify(p["rules"]))
+        exprs[0] = "(validate %s %s %s && stratified %s)" % (arities, hir_prog, plan, strata)
     for inp in inputs:
         f0 = dl.coq_facts(facts_of_input(inp, p["rels"]), R)
-        exprs.append("(option_map rows (run_plan std_interp std_swap %d%%nat %s (init_state %s)), naive_fix std_interp %d%%nat %s %s)" % (
-            FUEL, plan, f0, FUEL, src_rules, f0))
+        if spec == "strat":
+            sp = "strat_fix std_interp %d%%nat %s %s" % (FUEL, strata, f0)
+        else:
+            sp = "naive_fix std_interp %d%%nat %s %s" % (FUEL, src_rules, f0)
+        exprs.append("(option_map rows (run_plan std_interp std_swap %d%%nat %s (init_state %s)), %s)" % (FUEL, plan, f0, sp))
     inv = {v: k for k, v in R.d.items()}
     return exprs, inv
 
@@ -52,7 +108,7 @@ def decode_facts(v, inv):
     return [(inv[r], tuple(t)) for (r, t) in v[1]]
 
 
-def run(prop, cases, macro="ascent", tag=None, coq_timeout=40):
+def run(prop, cases, macro="ascent", tag=None, coq_timeout=40, spec="naive"):
     """cases: list of dict(id, prog, inputs=[{rel: tuples}]).  Returns per case dict(front, impl, model, spec, valid)."""
     tag = tag or prop.lower()
     texts = {c["id"]: dl.rust_program_text(c["prog"]) for c in cases}
@@ -69,7 +125,7 @@ def run(prop, cases, macro="ascent", tag=None, coq_timeout=40):
         if d is None or d.get("status") != "ok" or "sccs" not in d:
             continue
         try:
-            ex, inv = model_exprs(c["prog"], d, c["inputs"])
+            ex, inv = model_exprs(c["prog"], d, c["inputs"], spec)
         except (dl.ParseError, AssertionError, KeyError, IndexError) as e:
             parse_errors[c["id"]] = repr(e)
             continue
@@ -152,4 +208,152 @@ def compare_case(r, check_counts=True):
         mism.append(dict(case=dict(base, summary=r["summary"]), impl="plan computed by the macro", model="validate = %s" % r["valid"], spec=None,
                          kind="model_differs", known=None,
                          what="the plan dumped from the macro is rejected by the proved-sound validator (Engine/Validate.v validate): soundness theorem no longer applies to this program"))
+    return mism
+
+
+# ------------------------------------------------------------------ histories (C13 / C14 / C05)
+
+PRELUDE_H = PRELUDE.replace("Engine.Strat.", "Engine.Strat Engine.Rerun.")
+
+
+def script_exprs(p, dump, scripts, spec="naive"):
+    """scripts: list of [('set', inp) | ('push', inp) | ('run',)] -> per script one Coq expression
+    (model snapshots after every run, spec after every run)"""
+    R = dl.Names()
+    for name, _, _ in p["rels"]:
+        R(name)
+    plan, hir_rules = dl.coq_plan(dump, R)
+    src_rules = dl.coq_list(dl.coq_rule(r, R) for r in p["rules"])
+    hir_prog = dl.coq_list(dl.coq_rule(dict(heads=r["heads"], body=r["body"]), R) for r in hir_rules)
+    arities = dl.coq_list("(%s, %s)" % (dl.cnat(R(n)), dl.cnat(a)) for n, a, _ in p["rels"])
+    strata = dl.coq_list(dl.coq_list(dl.coq_rule(p["rules"][j], R) for j in comp) for comp in stratify(p["rules"]))
+    exprs = ["(validate %s %s %s && stratified %s)" % (arities, hir_prog, plan, strata)]
+    for sc in scripts:
+        steps, cum, specs = [], [], []
+        for st in sc:
+            if st[0] in ("set", "push"):
+                fs = facts_of_input(st[1], p["rels"])
+                cum += fs
+                steps.append("SPush %s" % dl.coq_facts(fs, R))
+            elif st[0] == "run":
+                steps.append("SRun")
+                f0 = dl.coq_facts(cum, R)
+                if spec == "strat":
+                    specs.append("strat_fix std_interp %d%%nat %s %s" % (FUEL, strata, f0))
+                else:
+                    specs.append("naive_fix std_interp %d%%nat %s %s" % (FUEL, src_rules, f0))
+        exprs.append("(run_script std_interp std_swap %d%%nat %s %s (init_state []), %s)" % (FUEL, plan, dl.coq_list(steps), dl.coq_list(specs)))
+    inv = {v: k for k, v in R.d.items()}
+    return exprs, inv
+
+
+def run_scripts(prop, cases, macro="ascent", tag=None, coq_timeout=60, spec="naive", threads=None):
+    """cases: dict(id, prog, scripts).  Implementation snapshots after every run vs model vs spec."""
+    tag = tag or prop.lower()
+    texts = {c["id"]: dl.rust_program_text(c["prog"]) for c in cases}
+    dumps = prog.front_run([(c["id"], macro, texts[c["id"]]) for c in cases])
+    jobs = []
+    for c in cases:
+        scripts = []
+        for sc in c["scripts"]:
+            s2 = []
+            for st in sc:
+                s2.append(st)
+                if st[0] == "run":
+                    s2.append(("snap",))
+            scripts.append(s2)
+        jobs.append(dict(id=c["id"], text=texts[c["id"]], macro=macro, rels=c["prog"]["rels"], scripts=scripts, threads=threads))
+    impl = prog.build_and_run(tag, jobs)
+    groups, gids, invs, parse_errors = [], [], {}, {}
+    for c in cases:
+        d = dumps.get(c["id"])
+        if d is None or d.get("status") != "ok" or "sccs" not in d:
+            continue
+        try:
+            ex, inv = script_exprs(c["prog"], d, c["scripts"], spec)
+        except (dl.ParseError, AssertionError, KeyError, IndexError) as e:
+            parse_errors[c["id"]] = repr(e)
+            continue
+        invs[c["id"]] = inv
+        groups.append(ex)
+        gids.append(c["id"])
+    vals = lib.coq_eval_groups(tag, PRELUDE_H, groups, timeout=coq_timeout)
+    out = []
+    byid = dict(zip(gids, vals))
+    for c in cases:
+        d = dumps.get(c["id"], {})
+        r = dict(case=c, text=texts[c["id"]], front_status=d.get("status"), front_errors=d.get("errors"), summary=d.get("summary"),
+                 impl=impl.get(c["id"]), parse_error=parse_errors.get(c["id"]), valid=None, model=None, spec=None,
+                 skipped=(c["id"] in byid and byid[c["id"]] is None))
+        v = byid.get(c["id"])
+        if v:
+            inv = invs[c["id"]]
+            r["valid"] = v[0]
+            r["model"], r["spec"] = [], []
+            for k in range(len(c["scripts"])):
+                m, s = v[k + 1]
+                r["model"].append(None if m == "None" else [[(inv[a], tuple(t)) for (a, t) in snap] for snap in m[1]])
+                r["spec"].append([decode_facts(x, inv) for x in s])
+        out.append(r)
+    return out
+
+
+def compare_scripts(r, check_counts=True, spec_applies=None):
+    """spec_applies(script index, run index) -> bool: whether the property speaks about that snapshot"""
+    mism = []
+    c = r["case"]
+    rels = c["prog"]["rels"]
+    base = dict(program=r["text"], id=c["id"])
+    if r.get("skipped"):
+        return mism
+    if r["front_status"] != "ok":
+        mism.append(dict(case=dict(base), impl=dict(front=r["front_status"], errors=r["front_errors"]), model=None, spec="well-formed program: must compile",
+                         kind="impl_violates_spec", known=None, what="front end rejects / panics on a well-formed generated program: %s %s" % (r["front_status"], r["front_errors"])))
+        return mism
+    if r["parse_error"]:
+        raise lib.Infra("cannot translate the dumped plan of %s: %s\n%s" % (c["id"], r["parse_error"], r["text"]))
+    for k, sc in enumerate(c["scripts"]):
+        cs = dict(base, script=sc)
+        iv = r["impl"][k] if r["impl"] else None
+        if iv is None or "snaps" not in iv:
+            mism.append(dict(case=cs, impl=iv, model=r["model"][k] if r["model"] else None, spec=None, kind="impl_violates_spec", known=None,
+                             what="implementation did not complete the history (compile error / panic / timeout): %s" % json.dumps(iv)[:300]))
+            continue
+        for j, snap in enumerate(iv["snaps"]):
+            isnap = prog.canon_snap(snap)
+            spec = r["spec"][k][j]
+            if spec is None:
+                raise lib.Infra("specification oracle ran out of fuel on %s" % c["id"])
+            sg = group_facts(spec, rels)
+            bad = None
+            if spec_applies is None or spec_applies(k, j):
+                for name, _, _ in rels:
+                    ilen, iset = isnap[name]
+                    if iset != sg[name][1]:
+                        bad = (name, ilen, iset, sg[name][1])
+                        break
+            if bad:
+                name, ilen, iset, sset = bad
+                mism.append(dict(case=dict(cs, run=j), impl={name: dict(len=ilen, tuples=iset)}, model=None, spec={name: sset}, kind="impl_violates_spec", known=None,
+                                 what="relation %s after run #%d of the history: missing %s; extra %s" % (name, j + 1, [t for t in sset if t not in iset][:5], [t for t in iset if t not in sset][:5])))
+                break
+            model = r["model"][k]
+            if model is None:
+                mism.append(dict(case=cs, impl="ok", model="out of fuel", spec=None, kind="model_differs", known=None,
+                                 what="correspondence Engine/Rerun.v run_script vs generated code: model did not terminate"))
+                break
+            mg = group_facts(model[j], rels)
+            md = None
+            for name, _, _ in rels:
+                ilen, iset = isnap[name]
+                if iset != mg[name][1] or (check_counts and ilen != mg[name][0]):
+                    md = name
+                    break
+            if md:
+                mism.append(dict(case=dict(cs, run=j), impl={md: isnap[md]}, model={md: mg[md]}, spec="implementation meets the specification on this snapshot",
+                                 kind="model_differs", known=None, what="correspondence Engine/Rerun.v run_script vs generated code (relation %s, run #%d)" % (md, j + 1)))
+                break
+    if r["valid"] is not True:
+        mism.append(dict(case=dict(base, summary=r["summary"]), impl="plan computed by the macro", model="validate = %s" % r["valid"], spec=None,
+                         kind="model_differs", known=None, what="the plan dumped from the macro is rejected by Engine/Validate.v validate"))
     return mism
